@@ -24,7 +24,7 @@ func init() {
 	run.Register(&run.Check{
 		ID:    "C15",
 		Level: "exploration",
-		Cases: func(tier string) int { return tierN(tier, 600, 9000) },
+		Cases: func(tier string) int { return tierN(tier, 4000, 80000) },
 		Run:   runC15,
 		Rule: "case = sequential history of 60-140 blockstore calls (Put, PutMany, Get, Has, GetSize, DeleteBlock, HashOnRead toggles) over 8-30 blocks of sizes {0,1,31,32,100,4096,~70KiB} hashed with sha2-256, sha2-512, blake2b-256 or identity, addressed through CIDv0/v1 x raw/dag-pb/dag-cbor aliases, plus deliberately mismatching (CID, bytes) pairs; every method is also called with a cancelled context; IndexBitSize(8) so real hashes share buckets; compared call by call with a reference map keyed by multihash and the expected error classes; " +
 			"non-trivial iff the run exercised a cancelled-context call, an alias lookup, a wrong-hash probe with the flag on and with it off, a delete and an empty block; distinct = hash of the call list",
